@@ -19,7 +19,8 @@ META = dict(
                 'stubbed to zero and symbolic lumped losses',
     bounds=['k<=3 channels', 'concrete fibre variants (lengths 5-120 km, 0-2 lumped losses, scalar or tabulated loss)',
             '3-element sequences (6 orders)', 'Raman-on: 2 lumped losses on the solver grid (10, 25 km) or off it (0.02, 12.5 km), z grid 5 km, coupling matrix = 0 (formal '
-            'low-power limit), order 1-2', 'latency after split_fiber: fibre length symbolic in (0, 1000] km'],
+            'low-power limit), order 1-2', 'latency after split_fiber: fibre length symbolic in (0, 1000] km',
+            'first-order Raman: 2 channels 4 THz apart on a 40 km fibre with tabulated loss, symbolic coupling coefficients in [-1e-3, 1e-3] 1/W/m'],
     assumptions=['floats as reals', 'agreement of perturbative and numerical Raman methods, orders 3-4, the iterative co/counter '
                  'algorithm and pump gain are statements about ODE integration accuracy and are outside the technique (see DESIGN)'],
     stubs=['Fiber.cr -> zero matrix in the Raman-on harness', 'scipy interp1d -> exact selection of grid points in the Raman-on harness'],
